@@ -21,7 +21,7 @@ pub struct Def { kind: K, key: usize, excl: bool, runs: Vec<Vec<Op>> }
 pub enum Top { Spawn(usize), Call(Call), Despawn(usize), Reg(usize), Revoke(usize) }
 
 #[derive(Default)]
-struct Sh { out: Vec<String>, defs: Vec<Def>, spawned: Vec<(SysId, usize)>, ncalls: usize }
+struct Sh { out: Vec<String>, defs: Vec<Def>, spawned: Vec<(SysId, usize)>, ncalls: usize, nreg: usize }
 
 const CAP_MAX: usize = 150;
 
@@ -154,7 +154,15 @@ fn sys_name<S: 'static>(_: &S, id: u32) -> SysName { SysName::new::<S>(id) }
 fn register_named(world: &mut World, key: usize)
 {
     let excl = script(K::N, key, 0).0;
-    macro_rules! m { ($n:literal) => { if excl { register_named_system(world, sys_name(&sys_x::<1, $n>, key as u32), sys_x::<1, $n>) }
+    // both registration entry points, alternating by a running count
+    let from = SH.with(|s| { let mut s = s.borrow_mut(); s.nreg += 1; s.nreg % 2 == 0 });
+    macro_rules! m { ($n:literal) => {
+        if from
+        {
+            if excl { register_named_system_from(world, sys_name(&sys_x::<1, $n>, key as u32), CallbackSystem::new(sys_x::<1, $n>)) }
+            else { register_named_system_from(world, sys_name(&sys_o::<1, $n>, key as u32), CallbackSystem::new(sys_o::<1, $n>)) }
+        }
+        else if excl { register_named_system(world, sys_name(&sys_x::<1, $n>, key as u32), sys_x::<1, $n>) }
         else { register_named_system(world, sys_name(&sys_o::<1, $n>, key as u32), sys_o::<1, $n>) } }; }
     dispatch4!(key, m);
     log(format!("sc registered n{}", key));
@@ -260,7 +268,32 @@ pub fn run(path: &str, text: &str)
                 {
                     let id = SH.with(|s| s.borrow().spawned.len());
                     let excl = script(K::S, *d, 0).0;
-                    let sid = spawn_system_from(&mut world, make_spawned(id, *d, excl));
+                    // the four ways to make a spawned system, by id
+                    let dk = *d;
+                    let sid = match id % 4
+                    {
+                        0 => spawn_system_from(&mut world, make_spawned(id, dk, excl)),
+                        1 =>
+                        {
+                            if excl { spawn_system(&mut world, move |In(x): In<u32>, world: &mut World, mut local: Local<u32>| body_exclusive(K::S, id, dk, x, &mut local, world)) }
+                            else { spawn_system(&mut world, move |In(x): In<u32>, mut local: Local<u32>, mut c: Commands| body_ordinary(K::S, id, dk, x, &mut local, &mut c)) }
+                        }
+                        2 =>
+                        {
+                            let sid = world.commands().spawn_system_from(make_spawned(id, dk, excl));
+                            world.flush();
+                            sid
+                        }
+                        _ =>
+                        {
+                            let e = world.spawn_empty().id();
+                            let r = if excl { world.commands().insert_system(e, move |In(x): In<u32>, world: &mut World, mut local: Local<u32>| body_exclusive(K::S, id, dk, x, &mut local, world)) }
+                                else { world.commands().insert_system(e, move |In(x): In<u32>, mut local: Local<u32>, mut c: Commands| body_ordinary(K::S, id, dk, x, &mut local, &mut c)) };
+                            if r.is_err() { log("insert_system failed".into()); }
+                            world.flush();
+                            SysId::new(e)
+                        }
+                    };
                     SH.with(|s| s.borrow_mut().spawned.push((sid, *d)));
                     log(format!("sc spawned s{} def{}", id, d));
                 }
